@@ -64,6 +64,8 @@ def check_cusum(case, ctx):
     if fk.forked_steps:
         ctx.label("met-tie")
     ctx.label("dir=" + str(p["direction"]), "known-target" if p["target"] is not None else "estimated-target")
+    if case.get("scale", 1.0) != 1.0:
+        ctx.label("rescaled-units")
     if nalarm >= 2:
         ctx.label("alarms>=2")
 
@@ -81,7 +83,14 @@ def strat_cusum(tier):
             "direction": draw(st.sampled_from([None, "positive", "negative"])),
         }
         xs = draw(vs.real_stream(min_segments=3, max_segments=9, seg_min=6, seg_max=60, max_total=400, level_range=20, spreads=(1, 1, 2, 8)))
-        return {"params": p, "xs": xs}
+        # the test standardises its observations, so the unit of measurement is arbitrary: exact power-of-two rescaling
+        scale = draw(st.sampled_from([1.0, 1.0, 1.0, 2.0**-30, 2.0**-40, 2.0**20]))
+        if scale != 1.0:
+            xs = [x * scale for x in xs]
+            if p["target"] is not None:
+                p["target"] = p["target"] * scale
+                p["sd_hat"] = p["sd_hat"] * scale
+        return {"params": p, "xs": xs, "scale": scale}
 
     return s()
 
